@@ -727,65 +727,64 @@ impl Router {
                 Packet::Unsubscribe(unsubscribe, _) => {
                     let connection = self.connections.get_mut(id).unwrap();
                     let pkid = unsubscribe.pkid;
+                    let mut reasons = Vec::with_capacity(unsubscribe.filters.len());
                     for filter in &unsubscribe.filters {
                         let span = tracing::info_span!("unsubscribe", topic = filter, pkid);
                         let _guard = span.enter();
 
                         debug!("Removing subscription on filter {}", filter);
+                        // the map only feeds metrics (a resumed session is not in it): what
+                        // the connection is subscribed to is `connection.subscriptions`
                         if let Some(connection_ids) = self.subscription_map.get_mut(filter) {
-                            let removed = connection_ids.remove(&id);
-                            if !removed {
-                                continue;
-                            }
+                            connection_ids.remove(&id);
+                        }
 
-                            let meter = &mut self.ibufs.get_mut(id).unwrap().meter;
-                            meter.unregister_subscription(filter);
+                        if !connection.subscriptions.remove(filter) {
+                            warn!(
+                                pkid = unsubscribe.pkid,
+                                "Unsubscribe failed as filter was not subscribed previously"
+                            );
+                            reasons.push(UnsubAckReason::NoSubscriptionExisted);
+                            continue;
+                        }
 
-                            if !connection.subscriptions.remove(filter) {
-                                warn!(
-                                    pkid = unsubscribe.pkid,
-                                    "Unsubscribe failed as filter was not subscribed previously"
-                                );
-                                continue;
-                            }
+                        let meter = &mut self.ibufs.get_mut(id).unwrap().meter;
+                        meter.unregister_subscription(filter);
 
-                            // Remove the connection from the group of this shared
-                            // subscription (if it is one) and discard the group when it
-                            // has no client left
-                            if let Some((group_name, _)) = extract_group(filter) {
-                                if let Some(group) = self.shared_subscriptions.get_mut(&group_name)
-                                {
-                                    group.remove_client(&client_id);
-                                    if group.is_empty() {
-                                        self.shared_subscriptions.remove(&group_name);
-                                    }
+                        // Remove the connection from the group of this shared
+                        // subscription (if it is one) and discard the group when it
+                        // has no client left
+                        if let Some((group_name, _)) = extract_group(filter) {
+                            if let Some(group) = self.shared_subscriptions.get_mut(&group_name) {
+                                group.remove_client(&client_id);
+                                if group.is_empty() {
+                                    self.shared_subscriptions.remove(&group_name);
                                 }
                             }
-
-                            if let Some(broker_aliases) = connection.broker_topic_aliases.as_mut() {
-                                broker_aliases.remove_alias(filter);
-                            }
-
-                            // remove the subscription id
-                            connection.subscription_ids.remove(filter);
-
-                            let unsuback = UnsubAck {
-                                pkid,
-                                // reasons are used in MQTTv5
-                                reasons: vec![UnsubAckReason::Success],
-                            };
-                            let ackslog = self.ackslog.get_mut(id).unwrap();
-                            ackslog.unsuback(unsuback);
-                            self.scheduler.untrack(id, filter);
-                            self.datalog.remove_waiters_for_id(id, filter);
-                            // a publish earlier in this batch may already have woken the
-                            // parked request; it must not be tracked again after the batch
-                            self.notifications.retain(|(cid, request)| {
-                                !(*cid == id && request.filter == *filter)
-                            });
-                            force_ack = true;
                         }
+
+                        if let Some(broker_aliases) = connection.broker_topic_aliases.as_mut() {
+                            broker_aliases.remove_alias(filter);
+                        }
+
+                        // remove the subscription id
+                        connection.subscription_ids.remove(filter);
+
+                        self.scheduler.untrack(id, filter);
+                        self.datalog.remove_waiters_for_id(id, filter);
+                        // a publish earlier in this batch may already have woken the
+                        // parked request; it must not be tracked again after the batch
+                        self.notifications
+                            .retain(|(cid, request)| !(*cid == id && request.filter == *filter));
+                        reasons.push(UnsubAckReason::Success);
                     }
+
+                    // exactly one UNSUBACK per UNSUBSCRIBE, with one reason per filter
+                    // (reasons are used in MQTTv5)
+                    let unsuback = UnsubAck { pkid, reasons };
+                    let ackslog = self.ackslog.get_mut(id).unwrap();
+                    ackslog.unsuback(unsuback);
+                    force_ack = true;
                 }
                 Packet::PubAck(puback, _) => {
                     let span = tracing::info_span!("puback", pkid = puback.pkid);
